@@ -643,6 +643,11 @@ class Machine:
             v = args[0] if args else []
             if isinstance(v, (list, tuple, dict, set, frozenset)) and all(not isinstance(x, (Opaque, list, dict)) or isinstance(x, Opaque) for x in v):
                 return frozenset(v)
+        if name == "map" and len(args) >= 2 and not all(isinstance(x, (list, tuple)) for x in args[1:]):
+            try:                      # opaque sequences of the model (sampled times ...): whatever the model iterates them as
+                args = [args[0]] + [x if isinstance(x, (list, tuple)) else list(self.iterate(x, e)) for x in args[1:]]
+            except Undecidable:
+                pass
         if name == "map" and len(args) >= 2 and all(isinstance(x, (list, tuple)) for x in args[1:]):
             fn_ = args[0]
             out_ = []
@@ -679,6 +684,24 @@ class Machine:
             if isinstance(v, list):
                 v.append(args[0]) if short == "append" else v.extend(args[0])
                 return None
+        if name == "next" and args and isinstance(args[0], (GenValue, list, tuple)):
+            # the first item only: a generator of the model is advanced no further (its later checks are not evaluated)
+            if isinstance(args[0], GenValue):
+                if not hasattr(args[0], "_to_gen"):
+                    try:
+                        return args[0].open()
+                    except Raised as r_:
+                        if str(r_.what).startswith("RuntimeError: generator didn't yield"):
+                            if len(args) > 1:
+                                return args[1]
+                            raise Raised("StopIteration")
+                        raise
+                raise Undecidable("next() on a generator that was already advanced")
+            if args[0]:
+                raise Undecidable("next() on a sequence of the model")
+            if len(args) > 1:
+                return args[1]
+            raise Raised("StopIteration")
         if name in ("itertools.compress", "compress") and len(args) == 2 and all(isinstance(a_, (list, tuple)) for a_ in args):
             return [d_ for d_, s_ in zip(args[0], args[1]) if self.truth(s_, e)]
         if name in ("itertools.chain", "chain") and args and all(isinstance(a_, (list, tuple)) for a_ in args):
